@@ -111,7 +111,7 @@ func c04Filter(f *eng.Fail, mo *c04Monitor) *eng.Fail {
 func init() {
 	checks["C04"] = eng.Check{
 		Hist:        true,
-		Rule:        "the C03 program space (every program of <=3, thorough 4, instructions over the 33-word alphabet x 4 initial states incl. pre-loaded registers and memory) x <=8 steps with an instrumented state provider; a monitor checks every request: a register only if never preset, written or supplied, at most once; a memory range only if none of its bytes is in the image, preset, written or supplied and no byte twice; a read whose reported value differs from the reference machine (memory = image + provider bytes + program writes) and which covers a supplied byte / register is reported as 'supplied value not observed'. Non-trivial = run with at least one provider request.",
+		Rule:        "the C03 program space (every program of <=3, thorough 4, instructions over the 36-word alphabet x 4 initial states incl. pre-loaded registers and memory) x <=8 steps with an instrumented state provider; a monitor checks every request: a register only if never preset, written or supplied, at most once; a memory range only if none of its bytes is in the image, preset, written or supplied and no byte twice; a read whose reported value differs from the reference machine (memory = image + provider bytes + program writes) and which covers a supplied byte / register is reported as 'supplied value not observed'. Non-trivial = run with at least one provider request.",
 		Assumptions: []string{"runs stop at the first state mismatch (reported by C03), so requests after a mismatch are not judged"},
 		Run: func(r *eng.Run) {
 			c03Enumerate(r, func(c c03Case) {
